@@ -1,5 +1,5 @@
 (* Proofs_C20.v — lemmas and proofs for C20 (see Prop_C20.v for the closed statements). *)
-From Coq Require Import List NArith ZArith Bool Lia.
+From Coq Require Import List NArith ZArith Bool Lia Sorting.Sorted.
 Import ListNotations.
 From Verif Require Import Base.Val C18.Fs C18.FsLemmas C18.Model_C18 gen.Tables_C20 C20.Model_C20 C20.Spec_C20.
 
@@ -328,11 +328,11 @@ Proof.
     exact (H3 n c Hn Hc eq_refl).
 Qed.
 
-Lemma protect_first_true : protect_first = true.
-Proof. vm_compute. reflexivity. Qed.
+Lemma protect_first_true i : protect_first (engine_mode i) = true.
+Proof. unfold engine_mode. destruct (u_new i); vm_compute; reflexivity. Qed.
 
-Lemma In_protect off l e :
-  In e (protect off l) <-> In e l /\ ~ In (fst e) (protected off).
+Lemma In_protect i off l e :
+  In e (protect (engine_mode i) off l) <-> In e l /\ ~ In (fst e) (protected off).
 Proof.
   unfold protect. rewrite protect_first_true, filter_In, negb_true_iff, mem_path_false. tauto.
 Qed.
@@ -689,3 +689,249 @@ Example ex_spec_rejects :
   /\ spec_ok (dec_case ex_replace) (VS (s2l "x@o/usr/lib64/old@o/usr/new=fx@0")) = false
   /\ spec_ok (dec_case alias_witness) (run_case alias_witness) = false.
 Proof. repeat split; vm_compute; reflexivity. Qed.
+
+(* ------------------------------------------------------------------ order of location strings *)
+Lemma str_ltb_asym : forall a b, str_ltb a b = true -> str_ltb b a = false.
+Proof.
+  induction a as [|x a IH]; intros [|y b] H; cbn in *; try congruence.
+  destruct (N.ltb_spec x y).
+  - destruct (N.ltb_spec y x); [lia|]. destruct (N.eqb_spec y x); [lia|reflexivity].
+  - destruct (N.eqb_spec x y); [|discriminate]. subst. rewrite N.ltb_irrefl, N.eqb_refl.
+    apply IH; exact H.
+Qed.
+
+Lemma str_ltb_negtrans : forall a b c, str_ltb a b = false -> str_ltb b c = false -> str_ltb a c = false.
+Proof.
+  induction a as [|x a IH]; intros [|y b] [|z c] H1 H2; cbn in *; try congruence.
+  destruct (N.ltb_spec x y); [discriminate|].
+  destruct (N.ltb_spec y z); [discriminate|].
+  destruct (N.ltb_spec x z); [lia|].
+  destruct (N.eqb_spec x y), (N.eqb_spec y z), (N.eqb_spec x z); try lia; try reflexivity.
+  eapply IH; eassumption.
+Qed.
+
+Lemma str_ltb_app : forall a b, b <> [] -> str_ltb a (a ++ b) = true.
+Proof.
+  induction a as [|x a IH]; intros b Hb; cbn.
+  - destruct b; [congruence|reflexivity].
+  - rewrite N.ltb_irrefl, N.eqb_refl. apply IH; exact Hb.
+Qed.
+
+Lemma loc_str_app p r : loc_str (p ++ r) = loc_str p ++ loc_str r.
+Proof. unfold loc_str. rewrite map_app, concat_app. reflexivity. Qed.
+
+Lemma is_prefix_split : forall a q, is_prefix a q = true -> exists r, q = a ++ r.
+Proof.
+  induction a as [|x a IH]; intros q H; cbn in H.
+  - exists q; reflexivity.
+  - destruct q as [|y q]; [discriminate|].
+    destruct (list_eq_dec N.eq_dec x y) as [->|]; [|discriminate].
+    destruct (IH q H) as (r & ->). exists r; reflexivity.
+Qed.
+
+Lemma strict_prefix_lt p q : strict_prefix p q = true -> loc_ltb p q = true.
+Proof.
+  unfold strict_prefix. rewrite andb_true_iff. intros (H1 & H2).
+  destruct (is_prefix_split _ _ H1) as (r & ->).
+  destruct (path_eq_dec p (p ++ r)) as [E|NE]; [discriminate|].
+  unfold loc_ltb. rewrite loc_str_app. apply str_ltb_app.
+  destruct r as [|c r]; [rewrite app_nil_r in NE; congruence|]. cbn. discriminate.
+Qed.
+
+(* sort_desc really sorts: nothing after x in the result is greater than x *)
+Definition ge (x y : path) : Prop := loc_ltb x y = false.
+
+Lemma insert_desc_sorted x l : StronglySorted ge l -> StronglySorted ge (insert_desc x l).
+Proof.
+  induction l as [|y r IH]; intros S; cbn.
+  - constructor; constructor.
+  - inversion S as [|? ? Sr Fy]; subst. destruct (loc_ltb x y) eqn:E.
+    + constructor; [apply IH; exact Sr|].
+      rewrite Forall_forall. intros z Hz. apply In_insert_desc in Hz. destruct Hz as [->|Hz].
+      * unfold ge, loc_ltb in *. apply str_ltb_asym; exact E.
+      * rewrite Forall_forall in Fy. apply Fy; exact Hz.
+    + constructor; [exact S|]. constructor; [exact E|].
+      rewrite Forall_forall in *. intros z Hz. unfold ge, loc_ltb in *.
+      eapply str_ltb_negtrans; [exact E|apply Fy; exact Hz].
+Qed.
+
+Lemma sort_desc_sorted l : StronglySorted ge (sort_desc l).
+Proof.
+  induction l as [|x l IH]; cbn; [constructor|]. apply insert_desc_sorted; exact IH.
+Qed.
+
+Lemma sorted_split l : StronglySorted ge l -> forall l1 x l2, l = l1 ++ x :: l2 ->
+  forall y, In y l2 -> loc_ltb x y = false.
+Proof.
+  induction 1 as [|a l S IH F]; intros l1 x l2 E y Hy.
+  - destruct l1; discriminate.
+  - destruct l1 as [|b l1]; cbn in E; injection E as -> ->.
+    + rewrite Forall_forall in F. apply F; exact Hy.
+    + eapply IH; [reflexivity|exact Hy].
+Qed.
+
+(* ------------------------------------------------------------------ a phase over an appended list *)
+Lemma phase_app rm stepf l1 : forall s l2,
+  phase rm stepf s (l1 ++ l2) =
+  let '(t1, s1, e1) := phase rm stepf s l1 in
+  if e1 then (t1, s1, true)
+  else let '(t2, s2, e2) := phase rm stepf s1 l2 in (t1 ++ t2, s2, e2).
+Proof.
+  induction l1 as [|p r IH]; intros s l2; cbn.
+  - destruct (phase rm stepf s l2) as [[t2 s2] e2]. reflexivity.
+  - destruct (stepf s p) as [cp s1| |].
+    + rewrite IH. destruct (phase rm stepf s1 r) as [[t1 s1'] e1]. destruct e1; [reflexivity|].
+      destruct (phase rm stepf s1' l2) as [[t2 s2] e2]. reflexivity.
+    + rewrite IH. destruct (phase rm stepf s r) as [[t1 s1'] e1]. destruct e1; [reflexivity|].
+      destruct (phase rm stepf s1' l2) as [[t2 s2] e2]. reflexivity.
+    + reflexivity.
+Qed.
+
+Lemma In_lookup : forall (s : fs) q n, In (q, n) s -> exists n', lookup s q = Some n'.
+Proof.
+  induction s as [|[r m] s IH]; intros q n H; [destruct H|]. cbn.
+  destruct (path_eq_dec q r); [eauto|]. destruct H as [H|H]; [congruence|]. eapply IH; exact H.
+Qed.
+
+Lemma has_child_witness s p : has_child s p = true ->
+  exists q n, lookup s q = Some n /\ strict_prefix p q = true.
+Proof.
+  unfold has_child. rewrite existsb_exists. intros ([q n] & Hin & Hp). cbn in Hp.
+  destruct (In_lookup _ _ _ Hin) as (n' & L). eauto.
+Qed.
+
+Lemma has_child_intro s p q n : lookup s q = Some n -> strict_prefix p q = true -> has_child s p = true.
+Proof.
+  intros L Hp. unfold has_child. rewrite existsb_exists. exists (q, n). split; [|exact Hp].
+  apply lookup_In; exact L.
+Qed.
+
+(* ------------------------------------------------------------------ completeness of the deepest-first pass *)
+Lemma lstat_dir_lookup s p : p <> [] -> lstat s p = Some (p, true) ->
+  canon s p = WOk p /\ exists n, lookup s p = Some n /\ is_dir_node n = true.
+Proof.
+  intros NE H. apply lstat_some in H. destruct H as (H & n & Hn & Hd). split; [exact H|].
+  exists n. split; [|exact Hd]. destruct p; [congruence|exact Hn].
+Qed.
+
+Lemma lookup_none_lstat s p : p <> [] -> canon s p = WOk p -> lookup s p = None -> lstat s p = None.
+Proof.
+  intros NE C L. unfold lstat. rewrite C.
+  assert (node_at s p = None) as -> by (destruct p; [congruence|exact L]). reflexivity.
+Qed.
+
+Theorem unmerge_dirs_complete_proof : forall i t s' e p,
+  run_engine i = (t, s', e) -> alias_free i ->
+  removable i p -> lstat (u_fs i) p = Some (p, true) -> p <> [] ->
+  lstat s' p = None \/ has_child s' p = true.
+Proof.
+  intros i t s' e p H AF R L NE.
+  set (s0 := u_fs i) in *. set (cs := uninstall_cset i) in *.
+  assert (Hin : In (p, true) cs) by (apply In_uninstall_cset; eauto).
+  assert (e = false) as He by (exact (unmerge_never_raises_proof _ _ _ _ H)). subst e.
+  destruct (lstat_dir_lookup _ _ NE L) as (C0 & n0 & L0 & D0).
+  unfold run_engine in H. fold s0 cs in H. apply unmerge_split in H.
+  destruct H as (t1 & s1 & e1 & P1 & [(_ & _ & _ & HF)|(-> & t2 & P2 & ->)]); [discriminate|].
+  pose proof (phase_sub _ _ unlink_removes _ _ _ _ _ P1) as S1.
+  assert (Hp : In p (sort_desc (dirs cs))) by (apply In_sort_desc, In_dirs; exact Hin).
+  destruct (in_split _ _ Hp) as (l1 & l2 & El).
+  pose proof (sorted_split _ (sort_desc_sorted (dirs cs)) _ _ _ El) as After.
+  rewrite El, phase_app in P2.
+  destruct (phase true rmdir_step s1 l1) as [[ta sk] ea] eqn:Pa.
+  destruct ea; [discriminate|].
+  pose proof (phase_sub _ _ rmdir_removes _ _ _ _ _ Pa) as Sa.
+  assert (Sk : sub sk s0) by (eapply sub_trans; eassumption).
+  (* every successful later call is on a listed directory name that sorts at or below p *)
+  assert (Later : forall sx tb sy eb, sub sx s0 -> phase true rmdir_step sx l2 = (tb, sy, eb) ->
+            forall q, strict_prefix p q = true -> lookup sy q = lookup sx q).
+  { intros sx tb sy eb Sx Pb q Hq.
+    destruct (phase_frame _ _ rmdir_removes _ _ _ _ _ Pb q) as [Q|(_ & x & Hx & Hr)]; [exact Q|].
+    exfalso.
+    destruct (phase_sound _ _ rmdir_removes _ s0 sx _ _ _ Sx Pb x q Hx Hr) as (Cx & _).
+    destruct (phase_events _ _ _ _ _ _ _ Pb x Hx) as (_ & Hl).
+    assert (In (ev_lit x) (sort_desc (dirs cs))) as Hs by (rewrite El; apply in_or_app; right; right; exact Hl).
+    apply In_sort_desc, In_dirs, In_uninstall_cset in Hs. destruct Hs as ((Ho & _) & c & Lx).
+    assert (canon s0 (ev_lit x) = WOk (ev_lit x)) as Cl by (apply AF; [exact Ho|congruence]).
+    rewrite Cl in Cx. injection Cx as Cx.
+    pose proof (After _ Hl) as G. rewrite Cx in G. rewrite (strict_prefix_lt _ _ Hq) in G. discriminate. }
+  cbn [phase] in P2.
+  destruct (rmdir_step sk p) as [c sk'| |] eqn:St.
+  - (* removed at its attempt *)
+    destruct (phase true rmdir_step sk' l2) as [[tb sy] eb] eqn:Pb. injection P2 as E1 E2 E3; subst t2 s' eb.
+    left. apply rmdir_step_done in St. destruct St as (Cc & -> & n & Ln & _).
+    assert (c = p) as ->.
+    { pose proof (canon_sub_bound sk s0 p c Sk Cc) as Q. rewrite C0 in Q.
+      assert (WOk p = WOk c) as Q' by (apply Q; unfold bound; destruct c; cbn; congruence).
+      congruence. }
+    pose proof (phase_sub _ _ rmdir_removes _ _ _ _ _ Pb) as Sb.
+    destruct (lstat sy p) as [[c' d']|] eqn:Ls; [|reflexivity]. exfalso.
+    assert (sub sy s0) as Sy by (eapply sub_trans; [exact Sb|eapply sub_trans; [apply sub_remove|exact Sk]]).
+    pose proof (lstat_sub _ _ _ _ _ Sy Ls) as L'. rewrite L in L'. injection L' as <- <-.
+    destruct (lstat_dir_lookup _ _ NE Ls) as (_ & n' & Ln' & _).
+    apply Sb in Ln'. rewrite lookup_remove_same in Ln'. discriminate.
+  - (* the attempt failed *)
+    destruct (phase true rmdir_step sk l2) as [[tb sy] eb] eqn:Pb. injection P2 as E1 E2 E3; subst t2 s' eb.
+    pose proof (phase_sub _ _ rmdir_removes _ _ _ _ _ Pb) as Sb.
+    destruct (canon_sub_cases sk s0 p Sk) as [Ec|U].
+    + rewrite C0 in Ec. destruct (lookup sk p) as [n|] eqn:Ln.
+      * pose proof (Sk _ _ Ln) as Ln0. rewrite L0 in Ln0. injection Ln0 as <-.
+        destruct (has_child sk p) eqn:Hc.
+        -- right. destruct (has_child_witness _ _ Hc) as (q & nq & Lq & Hq).
+           apply (has_child_intro sy p q nq); [|exact Hq].
+           rewrite (Later sk tb sy _ Sk Pb q Hq). exact Lq.
+        -- exfalso. assert (exists sz, rmdir_step sk p = Done p sz) as (sz & Hz)
+             by (apply rmdir_step_iff; eauto). rewrite Hz in St. discriminate.
+      * left. apply (lstat_sub_none sy sk p Sb). apply lookup_none_lstat; assumption.
+    + left. apply (lstat_sub_none sy sk p Sb). apply unbound_lstat; exact U.
+  - discriminate.
+Qed.
+
+(* non-vacuity: an alias-free case; a/b becomes empty and goes, a keeps k and stays *)
+Definition ex_complete : bstr := "o@o=d;o/a=d;o/a/b=d;o/a/b/f=fx;o/a/k=d;o/a/k/keep=fy@a;a/b;a/b/f;a/k@-".
+Example ex_complete_alias_free : alias_free (dec_case ex_complete).
+Proof.
+  intros p Hp _. vm_compute in Hp.
+  repeat (destruct Hp as [<-|Hp]; [vm_compute; reflexivity|]). destruct Hp.
+Qed.
+Example ex_complete_runs :
+  run_case ex_complete = VS (s2l "uo/a/b/f>;ro/a/k!;ro/a/b>;ro/a!@o/a/b;o/a/b/f@@0").
+Proof. vm_compute. reflexivity. Qed.
+
+(* ------------------------------------------------------------------ hook schedule *)
+(* for every engine mode: whenever the unmerge trigger runs in the `unmerge` hook, the protection
+   trigger has run before it in the same hook *)
+Theorem protection_before_unmerge_proof : forall m, In m engine_modes ->
+  In name_unmerge (run_names m name_unmerge) ->
+  runs_before name_protection name_unmerge (run_names m name_unmerge) = true.
+Proof.
+  intros m [<-|[<-|[<-|[]]]] H; vm_compute; try reflexivity; vm_compute in H; tauto.
+Qed.
+
+(* the removal really is scheduled in both uninstalling modes, in no other hook, and never in install mode *)
+Theorem unmerge_scheduled_proof :
+  In name_unmerge (run_names REPLACE_MODE name_unmerge) /\
+  In name_unmerge (run_names UNINSTALL_MODE name_unmerge) /\
+  run_names INSTALL_MODE name_unmerge = [] /\
+  (forall m h, In m engine_modes -> In h (mode_hooks m) -> In name_unmerge (run_names m h) -> h = name_unmerge).
+Proof.
+  split; [vm_compute; tauto|]. split; [vm_compute; tauto|]. split; [vm_compute; reflexivity|].
+  intros m h Hm Hh H.
+  assert (D : forall l : list str, In name_unmerge l ->
+            forallb (fun x => negb (str_eqb name_unmerge x)) l = true -> False).
+  { intros l Hl F. rewrite forallb_forall in F. specialize (F _ Hl).
+    rewrite str_eqb_refl in F. discriminate. }
+  destruct Hm as [<-|[<-|[<-|[]]]]; vm_compute in Hh;
+    repeat (destruct Hh as [<-|Hh]; [try reflexivity; exfalso; apply (D _ H); vm_compute; reflexivity|]);
+    destruct Hh.
+Qed.
+
+(* the model's [protect_first] IS this order, and for the engines the model describes it holds *)
+Theorem protection_applied_proof : forall i,
+  In (engine_mode i) engine_modes /\
+  protect_first (engine_mode i) =
+    runs_before name_protection name_unmerge (run_names (engine_mode i) name_unmerge) /\
+  protect_first (engine_mode i) = true.
+Proof.
+  intros i. split; [|split; [reflexivity|apply protect_first_true]].
+  unfold engine_mode. destruct (u_new i); vm_compute; tauto.
+Qed.
